@@ -27,6 +27,14 @@
 // glue `evict_expired`. The branches that skip updated / invalidated entries (`try_skip_updated_entry`, the dirty re-queue)
 // are proved UNREACHABLE in that state; `try_skip_updated_entry` itself is under contract (what it does to the two lists as a
 // function of what the map holds under the key).
+// `Inner::apply_reads` (the recorded reads applied to the recency order and the popularity estimator) is under contract for
+// ARBITRARY queue contents: the channel hands out arbitrary records that satisfy the quiescent-state condition `rd_wf`; the
+// recency order afterwards is the received records replayed in order (C12), every record is counted exactly once in the
+// estimator (C14, loop invariant over the write guard's value), and the last-accessed stamp is only ever moved forward (the
+// setter's precondition `stamp_forward`: defect D12). `Inner::apply_writes` is under contract for ONE record per call
+// (`count <= 1`): dispatch to the step function of the record's kind with the record's own fields. The twelve `AccessTime`
+// functions of `src/common/concurrent.rs` and the three functions that switch the estimator on are under contract too.
+// Locks (`RwLock` guards with prophecy-style `DerefMut`), the channels (`sp_queued`) and `AtomicBool` are assumed.
 // Declared rewrites used here (tools/extract.py): wildcard closure parameters `|_, v|` are named (`wild`); in
 // `evict_lru_entries` the loop `for _ in 0..batch_size` is written as a `while` loop with an explicit counter because Verus
 // does not support `continue` in `for` loops (`for2while`); the `&mut`-capturing closure of `evict_expired` is inlined.
@@ -35,6 +43,7 @@ verus! {
 pub mod env {
 use vstd::prelude::*;
 use vstd::std_specs::iter::IteratorSpec;
+use vstd::std_specs::ops::{MulSpec, DivSpec};
 use std::sync::Arc;
 use std::ptr::NonNull;
 use super::code::{KeyDate, KeyHashDate};
@@ -65,12 +74,33 @@ impl PartialEq for Instant {
     #[verifier::external_body]
     fn eq(&self, o: &Instant) -> (r: bool) ensures r == (self.t() == o.t()) { unimplemented!() }
 }
+impl PartialOrd for Instant {
+    #[verifier::external_body]
+    fn partial_cmp(&self, o: &Instant) -> (r: Option<std::cmp::Ordering>) { unimplemented!() }
+    #[verifier::external_body]
+    fn lt(&self, o: &Instant) -> (r: bool) ensures r == (self.t() < o.t()) { unimplemented!() }
+}
+/// `src/common/concurrent.rs`. The setters write shared state through `&self` (nothing is claimed about it afterwards); what
+/// IS stated is when they may be called: `sp_may_set_*` is `false` for the node kinds whose setter is `unreachable!()`, and for
+/// the bookkeeping record the last-accessed stamp may only move FORWARD (C06 / C03: "read ops applied late must not move
+/// timestamps backwards", defect D12) -- a caller under contract has to establish that.
 pub trait AccessTime {
     spec fn sp_last_accessed(&self) -> Option<Instant>;
     spec fn sp_last_modified(&self) -> Option<Instant>;
+    spec fn sp_may_set_accessed(&self, timestamp: Instant) -> bool;
+    spec fn sp_may_set_modified(&self, timestamp: Instant) -> bool;
     fn last_accessed(&self) -> (r: Option<Instant>) ensures r == self.sp_last_accessed();
+    fn set_last_accessed(&self, timestamp: Instant) requires self.sp_may_set_accessed(timestamp);
     fn last_modified(&self) -> (r: Option<Instant>) ensures r == self.sp_last_modified();
+    fn set_last_modified(&self, timestamp: Instant) requires self.sp_may_set_modified(timestamp);
 }
+/// a stamp only ever moves forward
+pub open spec fn stamp_forward(cur: Option<Instant>, timestamp: Instant) -> bool { cur.is_none() || cur.unwrap().t() < timestamp.t() }
+#[verifier::allow(undeclared_external_trait)]
+pub assume_specification<T, U, F> [std::option::Option::<T>::map_or] (o: std::option::Option<T>, d: U, f: F) -> (r: U)
+    where F: std::ops::FnOnce(T,) -> U + std::marker::Destruct, U: std::marker::Destruct,
+    requires o.is_some() ==> f.requires((o.unwrap(),)),
+    ensures o.is_none() ==> r == d, o.is_some() ==> f.ensures((o.unwrap(),), r);
 pub open spec fn has_id(s: Seq<N>, id: int) -> bool { exists|i: int| 0 <= i < s.len() && (#[trigger] s[i]).id == id }
 pub open spec fn index_of_id(s: Seq<N>, id: int) -> int { choose|i: int| 0 <= i < s.len() && (#[trigger] s[i]).id == id }
 pub open spec fn moved_to_back(s: Seq<N>, i: int) -> Seq<N> { s.remove(i).push(s[i]) }
@@ -176,6 +206,100 @@ impl FrequencySketch {
     #[verifier::external_body]
     pub fn frequency(&self, hash: u64) -> (r: u8) ensures r == self.freq(hash), r <= 15 { unimplemented!() }
 //@@ END
+    /// the sketch after one more recorded lookup of `hash` (contract proved in the `sketch` unit, incl. the aging step)
+    pub uninterp spec fn incremented(&self, hash: u64) -> FrequencySketch;
+//@@ SIG file=src/common/frequency_sketch.rs owner=FrequencySketch name=increment
+    #[verifier::external_body]
+    pub fn increment(&mut self, hash: u64) ensures *final(self) == old(self).incremented(hash) { unimplemented!() }
+//@@ END
+    /// (re)sizing: forgets all counts or does nothing -- never a recording (contract proved in the `sketch` unit)
+    pub uninterp spec fn ensured(&self, cap: u32) -> FrequencySketch;
+//@@ SIG file=src/common/frequency_sketch.rs owner=FrequencySketch name=ensure_capacity
+    #[verifier::external_body]
+    pub fn ensure_capacity(&mut self, cap: u32) ensures *final(self) == old(self).ensured(cap) { unimplemented!() }
+//@@ END
+}
+
+/// std::sync::RwLock, read and written through `&self`. The guards are owned values: `guard@` is the protected value while
+/// this call holds the lock (for a write guard it follows the writes made through it). What the lock holds before and after
+/// is shared state and NOT specified.
+#[verifier::external_body]
+#[verifier::reject_recursive_types(T)]
+pub struct RwLock<T> { t: std::marker::PhantomData<T> }
+#[verifier::external_body]
+#[verifier::reject_recursive_types(T)]
+pub struct RwLockWriteGuard<'a, T> { t: std::marker::PhantomData<&'a mut T> }
+#[verifier::external_body]
+#[verifier::reject_recursive_types(T)]
+pub struct RwLockReadGuard<'a, T> { t: std::marker::PhantomData<&'a T> }
+pub struct PoisonError {}
+impl std::fmt::Debug for PoisonError {
+    #[verifier::external_body]
+    fn fmt(&self, f: &mut std::fmt::Formatter<'_>) -> std::fmt::Result { unimplemented!() }
+}
+impl<'a, T> RwLockWriteGuard<'a, T> { pub uninterp spec fn view(&self) -> T; }
+impl<'a, T> RwLockReadGuard<'a, T> { pub uninterp spec fn view(&self) -> T; }
+impl<'a, T> std::ops::Deref for RwLockWriteGuard<'a, T> {
+    type Target = T;
+    #[verifier::external_body]
+    fn deref(&self) -> (r: &T) ensures *r == self@ { unimplemented!() }
+}
+impl<'a, T> std::ops::DerefMut for RwLockWriteGuard<'a, T> {
+    #[verifier::external_body]
+    fn deref_mut(&mut self) -> (r: &mut T) ensures *r == old(self)@, *final(r) == final(self)@ { unimplemented!() }
+}
+impl<'a, T> std::ops::Deref for RwLockReadGuard<'a, T> {
+    type Target = T;
+    #[verifier::external_body]
+    fn deref(&self) -> (r: &T) ensures *r == self@ { unimplemented!() }
+}
+impl<T> RwLock<T> {
+    /// poisoning (a panic of another thread while it held the lock) is outside the model: the `expect("lock poisoned")` arms
+    #[verifier::external_body]
+    pub fn write(&self) -> (r: Result<RwLockWriteGuard<'_, T>, PoisonError>) ensures r.is_ok() { unimplemented!() }
+    #[verifier::external_body]
+    pub fn read(&self) -> (r: Result<RwLockReadGuard<'_, T>, PoisonError>) ensures r.is_ok() { unimplemented!() }
+}
+
+/// std::sync::atomic::AtomicBool, shared through `&self`: `sp_val()` = what this call reads; a store is not specified
+#[verifier::external_body]
+pub struct AtomicBool { x: u8 }
+impl AtomicBool {
+    pub uninterp spec fn sp_val(&self) -> bool;
+    #[verifier::external_body]
+    pub fn load(&self, order: std::sync::atomic::Ordering) -> (r: bool) ensures r == self.sp_val() { unimplemented!() }
+    #[verifier::external_body]
+    pub fn store(&self, val: bool, order: std::sync::atomic::Ordering) { unimplemented!() }
+}
+/// `Arc<dyn Fn(&K, &V) -> u32 + Send + Sync>` (Verus rejects `dyn` with more than one trait): opaque
+#[verifier::external_body]
+#[verifier::reject_recursive_types(K)]
+#[verifier::reject_recursive_types(V)]
+pub struct Weigher<K, V> { k: std::marker::PhantomData<(K, V)> }
+/// f64 `*` and `/` never trap in Rust (vstd leaves their preconditions unspecified)
+pub broadcast axiom fn axiom_f64_mul_ok(a: f64, b: f64) ensures #[trigger] a.mul_req(b);
+pub broadcast axiom fn axiom_f64_div_ok(a: f64, b: f64) ensures #[trigger] a.div_req(b);
+pub mod common {
+    use vstd::prelude::*;
+    /// `max_capacity.try_into().unwrap_or(u32::MAX).max(128)`: Kani harness `sketch_capacity_clamps` (complete)
+//@@ SIG file=src/common.rs owner=- name=sketch_capacity
+    #[verifier::external_body]
+    pub fn sketch_capacity(max_capacity: u64) -> (r: u32) ensures r >= 128 { unimplemented!() }
+//@@ END
+}
+
+/// crossbeam_channel::Receiver, shared through `&self`: `sp_queued(x)` = "x is a record some producer has put into this
+/// channel"; `try_recv` hands out such a record or reports the channel empty. Order and multiplicity are NOT modelled.
+#[verifier::external_body]
+#[verifier::reject_recursive_types(T)]
+pub struct Receiver<T> { t: std::marker::PhantomData<T> }
+pub struct TryRecvError {}
+impl<T> Receiver<T> {
+    pub uninterp spec fn sp_queued(&self, x: T) -> bool;
+    #[verifier::external_body]
+    pub fn try_recv(&self) -> (r: Result<T, TryRecvError>) ensures match r { Ok(x) => self.sp_queued(x), Err(_) => true } { unimplemented!() }
+    #[verifier::external_body]
+    pub fn len(&self) -> (r: usize) { unimplemented!() }
 }
 
 /// dashmap::mapref::one::Ref
@@ -307,37 +431,20 @@ impl<K> EntryInfo<K> {
     pub fn unset_q_nodes(&self) { unimplemented!() }
 //@@ END
 }
+/// `src/common/concurrent/entry_info.rs`: `AtomicInstant`s: ASSUMED
 impl<K> AccessTime for EntryInfo<K> {
     open spec fn sp_last_accessed(&self) -> Option<Instant> { self.sp_ta() }
     open spec fn sp_last_modified(&self) -> Option<Instant> { self.sp_tm() }
+    open spec fn sp_may_set_accessed(&self, timestamp: Instant) -> bool { stamp_forward(self.sp_ta(), timestamp) }
+    open spec fn sp_may_set_modified(&self, timestamp: Instant) -> bool { true }
     #[verifier::external_body]
     fn last_accessed(&self) -> (r: Option<Instant>) { unimplemented!() }
     #[verifier::external_body]
-    fn last_modified(&self) -> (r: Option<Instant>) { unimplemented!() }
-}
-impl<K, V> AccessTime for TrioArc<super::code::ValueEntry<K, V>> {
-    open spec fn sp_last_accessed(&self) -> Option<Instant> { self@.info@.sp_ta() }
-    open spec fn sp_last_modified(&self) -> Option<Instant> { self@.info@.sp_tm() }
-    #[verifier::external_body]
-    fn last_accessed(&self) -> (r: Option<Instant>) { unimplemented!() }
+    fn set_last_accessed(&self, timestamp: Instant) { unimplemented!() }
     #[verifier::external_body]
     fn last_modified(&self) -> (r: Option<Instant>) { unimplemented!() }
-}
-impl<K> AccessTime for DeqNode<KeyHashDate<K>> {
-    open spec fn sp_last_accessed(&self) -> Option<Instant> { self.element.entry_info@.sp_ta() }
-    open spec fn sp_last_modified(&self) -> Option<Instant> { None }
     #[verifier::external_body]
-    fn last_accessed(&self) -> (r: Option<Instant>) { unimplemented!() }
-    #[verifier::external_body]
-    fn last_modified(&self) -> (r: Option<Instant>) { unimplemented!() }
-}
-impl<K> AccessTime for DeqNode<KeyDate<K>> {
-    open spec fn sp_last_accessed(&self) -> Option<Instant> { None }
-    open spec fn sp_last_modified(&self) -> Option<Instant> { self.element.entry_info@.sp_tm() }
-    #[verifier::external_body]
-    fn last_accessed(&self) -> (r: Option<Instant>) { unimplemented!() }
-    #[verifier::external_body]
-    fn last_modified(&self) -> (r: Option<Instant>) { unimplemented!() }
+    fn set_last_modified(&self, timestamp: Instant) { unimplemented!() }
 }
 /// the bookkeeping record a list node shares with its entry (`KeyHashDate.entry_info`, an `Arc` clone of the entry's `info`)
 pub uninterp spec fn node_info<K>(id: int) -> TrioArc<EntryInfo<K>>;
@@ -487,7 +594,8 @@ use std::time::Duration;
 use vstd::std_specs::iter::IteratorSpec;
 use super::env::*;
 use super::cspec::*;
-broadcast use {axiom_node_ref, axiom_ptr_reads, axiom_kid_arc};
+broadcast use {axiom_node_ref, axiom_ptr_reads, axiom_kid_arc, axiom_f64_mul_ok, axiom_f64_div_ok};
+use std::sync::atomic::Ordering;
 
 //@@ STRUCT file=src/common/concurrent.rs name=KeyHash
 #[verifier::reject_recursive_types(K)]
@@ -705,6 +813,121 @@ impl<K, V> ValueEntry<K, V> {
     }
 //@@ END
 }
+
+// ---------------- src/common/concurrent.rs: the three AccessTime implementations (real text) ----------------
+// The getters are proved to read the stamp of the bookkeeping record the node / entry shares (trait contract `r ==
+// sp_last_*()`), the setters to hand the stamp on under the trait's precondition, the two `unreachable!()` arms to be
+// unreachable (`sp_may_set_* == false` for that node kind: no caller under contract may call them).
+impl<K> AccessTime for DeqNode<KeyDate<K>> {
+    open spec fn sp_last_accessed(&self) -> Option<Instant> { None }
+    open spec fn sp_last_modified(&self) -> Option<Instant> { self.element.entry_info@.sp_tm() }
+    open spec fn sp_may_set_accessed(&self, timestamp: Instant) -> bool { false }
+    open spec fn sp_may_set_modified(&self, timestamp: Instant) -> bool { true }
+//@@ FN file=src/common/concurrent.rs owner=AccessTime for DeqNode<KeyDate<K>> name=last_accessed tags=C06,C08
+    fn last_accessed(&self) -> /*@+*/(r:/*@-*/ Option<Instant>/*@+*/)/*@-*/ {
+        None
+    }
+//@@ END
+//@@ FN file=src/common/concurrent.rs owner=AccessTime for DeqNode<KeyDate<K>> name=set_last_accessed tags=C08
+    fn set_last_accessed(&self, _timestamp: Instant) {
+        unreachable!();
+    }
+//@@ END
+//@@ FN file=src/common/concurrent.rs owner=AccessTime for DeqNode<KeyDate<K>> name=last_modified tags=C05
+    fn last_modified(&self) -> /*@+*/(r:/*@-*/ Option<Instant>/*@+*/)/*@-*/ {
+        self.element.entry_info.last_modified()
+    }
+//@@ END
+//@@ FN file=src/common/concurrent.rs owner=AccessTime for DeqNode<KeyDate<K>> name=set_last_modified tags=C05
+    fn set_last_modified(&self, timestamp: Instant) {
+        self.element.entry_info.set_last_modified(timestamp);
+    }
+//@@ END
+}
+impl<K> AccessTime for DeqNode<KeyHashDate<K>> {
+    open spec fn sp_last_accessed(&self) -> Option<Instant> { self.element.entry_info@.sp_ta() }
+    open spec fn sp_last_modified(&self) -> Option<Instant> { None }
+    open spec fn sp_may_set_accessed(&self, timestamp: Instant) -> bool { stamp_forward(self.element.entry_info@.sp_ta(), timestamp) }
+    open spec fn sp_may_set_modified(&self, timestamp: Instant) -> bool { false }
+//@@ FN file=src/common/concurrent.rs owner=AccessTime for DeqNode<KeyHashDate<K>> name=last_accessed tags=C06
+    fn last_accessed(&self) -> /*@+*/(r:/*@-*/ Option<Instant>/*@+*/)/*@-*/ {
+        self.element.entry_info.last_accessed()
+    }
+//@@ END
+//@@ FN file=src/common/concurrent.rs owner=AccessTime for DeqNode<KeyHashDate<K>> name=set_last_accessed tags=C06
+    fn set_last_accessed(&self, timestamp: Instant) {
+        self.element.entry_info.set_last_accessed(timestamp);
+    }
+//@@ END
+//@@ FN file=src/common/concurrent.rs owner=AccessTime for DeqNode<KeyHashDate<K>> name=last_modified tags=C05,C08
+    fn last_modified(&self) -> /*@+*/(r:/*@-*/ Option<Instant>/*@+*/)/*@-*/ {
+        None
+    }
+//@@ END
+//@@ FN file=src/common/concurrent.rs owner=AccessTime for DeqNode<KeyHashDate<K>> name=set_last_modified tags=C08
+    fn set_last_modified(&self, _timestamp: Instant) {
+        unreachable!();
+    }
+//@@ END
+}
+impl<K, V> AccessTime for TrioArc<ValueEntry<K, V>> {
+    open spec fn sp_last_accessed(&self) -> Option<Instant> { self@.info@.sp_ta() }
+    open spec fn sp_last_modified(&self) -> Option<Instant> { self@.info@.sp_tm() }
+    open spec fn sp_may_set_accessed(&self, timestamp: Instant) -> bool { stamp_forward(self@.info@.sp_ta(), timestamp) }
+    open spec fn sp_may_set_modified(&self, timestamp: Instant) -> bool { true }
+//@@ FN file=src/common/concurrent.rs owner=AccessTime for TrioArc<ValueEntry<K, V>> name=last_accessed tags=C06
+    fn last_accessed(&self) -> /*@+*/(r:/*@-*/ Option<Instant>/*@+*/)/*@-*/ {
+        self.info.last_accessed()
+    }
+//@@ END
+//@@ FN file=src/common/concurrent.rs owner=AccessTime for TrioArc<ValueEntry<K, V>> name=set_last_accessed tags=C06
+    fn set_last_accessed(&self, timestamp: Instant) {
+        self.info.set_last_accessed(timestamp);
+    }
+//@@ END
+//@@ FN file=src/common/concurrent.rs owner=AccessTime for TrioArc<ValueEntry<K, V>> name=last_modified tags=C05
+    fn last_modified(&self) -> /*@+*/(r:/*@-*/ Option<Instant>/*@+*/)/*@-*/ {
+        self.info.last_modified()
+    }
+//@@ END
+//@@ FN file=src/common/concurrent.rs owner=AccessTime for TrioArc<ValueEntry<K, V>> name=set_last_modified tags=C05
+    fn set_last_modified(&self, timestamp: Instant) {
+        self.info.set_last_modified(timestamp);
+    }
+//@@ END
+}
+
+// ---------------- the records of the two maintenance queues ----------------
+//@@ STRUCT file=src/common/concurrent.rs name=KvEntry
+#[verifier::reject_recursive_types(K)]
+#[verifier::reject_recursive_types(V)]
+pub struct KvEntry<K, V> {
+    pub key: Arc<K>,
+    pub entry: TrioArc<ValueEntry<K, V>>,
+}
+//@@ END
+//@@ ENUM file=src/common/concurrent.rs name=ReadOp
+#[verifier::reject_recursive_types(K)]
+#[verifier::reject_recursive_types(V)]
+pub enum ReadOp<K, V> {
+    // u64 is the hash of the key.
+    Hit(u64, TrioArc<ValueEntry<K, V>>, Instant),
+    Miss(u64),
+}
+//@@ END
+//@@ ENUM file=src/common/concurrent.rs name=WriteOp
+#[verifier::reject_recursive_types(K)]
+#[verifier::reject_recursive_types(V)]
+pub enum WriteOp<K, V> {
+    Upsert {
+        key_hash: KeyHash<K>,
+        value_entry: TrioArc<ValueEntry<K, V>>,
+        old_weight: u32,
+        new_weight: u32,
+    },
+    Remove(KvEntry<K, V>),
+}
+//@@ END
 
 //@@ STRUCT file=src/common/concurrent/deques.rs name=Deques
 #[verifier::reject_recursive_types(K)]
@@ -1099,6 +1322,11 @@ pub struct Inner<K, V, S> {
     pub time_to_live: Option<Duration>,
     pub time_to_idle: Option<Duration>,
     pub cache: CacheStore<K, V, S>,
+    pub frequency_sketch: RwLock<FrequencySketch>,
+    pub read_op_ch: Receiver<ReadOp<K, V>>,
+    pub write_op_ch: Receiver<WriteOp<K, V>>,
+    pub frequency_sketch_enabled: AtomicBool,
+    pub weigher: Option<Weigher<K, V>>,
 }
 
 impl<K, V, S> Inner<K, V, S> {
@@ -1998,13 +2226,250 @@ impl<K, V, S> Inner<K, V, S> {
         }
     }
 //@@ END
+
+    // ---------------- applying the recorded reads (C12, C14, C06) ----------------
+    /// the hash a read record was made for
+    pub open spec fn rd_hash(op: ReadOp<K, V>) -> u64 { match op { ReadOp::Hit(h, _, _) => h, ReadOp::Miss(h) => h } }
+    /// what one applied read record does to the recency order: a hit on an admitted entry makes it most recently used
+    pub open spec fn rd_order(p: Seq<N>, op: ReadOp<K, V>) -> Seq<N> {
+        match op { ReadOp::Hit(_, e, _) => if e@.admitted() { Deques::<K>::to_back(p, e@.ao()) } else { p }, ReadOp::Miss(_) => p }
+    }
+    pub open spec fn rd_replay(p: Seq<N>, log: Seq<ReadOp<K, V>>) -> Seq<N>
+        decreases log.len()
+    { if log.len() == 0 { p } else { Self::rd_order(Self::rd_replay(p, log.drop_last()), log.last()) } }
+    /// C14: every applied record, hit or miss, is counted exactly once
+    pub open spec fn rd_sketch(sk: FrequencySketch, log: Seq<ReadOp<K, V>>) -> FrequencySketch
+        decreases log.len()
+    { if log.len() == 0 { sk } else { Self::rd_sketch(sk, log.drop_last()).incremented(Self::rd_hash(log.last())) } }
+    /// a queued hit on an admitted entry refers to a node of the probation list (quiescent state)
+    pub open spec fn rd_wf(op: ReadOp<K, V>, p: Seq<N>) -> bool {
+        match op {
+            ReadOp::Hit(_, e, _) => e@.admitted() ==> Deques::<K>::ao_in_probation(&e@) && (e@.ao().is_some() ==> has_id(p, e@.ao().unwrap())),
+            ReadOp::Miss(_) => true,
+        }
+    }
+    pub open spec fn same_ids(a: Seq<N>, b: Seq<N>) -> bool { forall|x: int| has_id(a, x) <==> has_id(b, x) }
+    pub proof fn lemma_to_back_ids(s: Seq<N>, id: Option<int>)
+        ensures Self::same_ids(s, Deques::<K>::to_back(s, id))
+    {
+        let t = Deques::<K>::to_back(s, id);
+        if id.is_some() && has_id(s, id.unwrap()) {
+            let i = index_of_id(s, id.unwrap());
+            assert forall|x: int| has_id(s, x) <==> has_id(t, x) by {
+                if has_id(s, x) {
+                    let j = choose|j: int| 0 <= j < s.len() && (#[trigger] s[j]).id == x;
+                    if j < i { assert(t[j] == s[j]); } else if j == i { assert(t[s.len() - 1] == s[i]); } else { assert(t[j - 1] == s[j]); }
+                }
+                if has_id(t, x) {
+                    let j = choose|j: int| 0 <= j < t.len() && (#[trigger] t[j]).id == x;
+                    if j < i { assert(t[j] == s[j]); } else if j == t.len() - 1 { assert(t[j] == s[i]); } else { assert(t[j] == s[j + 1]); }
+                }
+            }
+        }
+    }
+
+//@@ FN file=src/sync/base_cache.rs owner=Inner name=apply_reads tags=C12,C14,C06
+    fn apply_reads(&self, deqs: &mut Deques<K>, count: usize)
+        requires //@
+            // quiescent state: a queued hit on an admitted entry names a node of the probation list
+            forall|op: ReadOp<K, V>| #[trigger] self.read_op_ch.sp_queued(op) ==> Self::rd_wf(op, old(deqs).probation@), //@ [C08,C11]
+        ensures //@
+            final(deqs).others_same(old(deqs)), final(deqs).write_order@ == old(deqs).write_order@, final(deqs).same_regions(old(deqs)), //@ [C12]
+            // C12: the recency order is exactly the recorded reads replayed in the order maintenance received them: each hit on an
+            // admitted entry moves that entry (and nothing else) to the most-recently-used end
+            exists|log: Seq<ReadOp<K, V>>| log.len() <= count && (forall|i: int| 0 <= i < log.len() ==> self.read_op_ch.sp_queued(#[trigger] log[i])) //@ [C12,C15]
+                && final(deqs).probation@ == Self::rd_replay(old(deqs).probation@, log), //@ [C12,C15]
+    {
+        use ReadOp::*;
+        let mut freq = self.frequency_sketch.write().expect("lock poisoned");
+        let ch = &self.read_op_ch;
+        let ghost p0 = deqs.probation@; let ghost f0 = freq@; let ghost mut log: Seq<ReadOp<K, V>> = Seq::empty(); //@
+        for _ in /*@+*/it:/*@-*/ 0..count
+            invariant //@
+                *ch == self.read_op_ch, //@
+                forall|op: ReadOp<K, V>| #[trigger] self.read_op_ch.sp_queued(op) ==> Self::rd_wf(op, p0), //@
+                Self::same_ids(p0, deqs.probation@), //@ [C11]
+                deqs.others_same(old(deqs)), deqs.write_order@ == old(deqs).write_order@, deqs.same_regions(old(deqs)), //@ [C12]
+                log.len() <= it.index@, forall|i: int| 0 <= i < log.len() ==> self.read_op_ch.sp_queued(#[trigger] log[i]), //@
+                deqs.probation@ == Self::rd_replay(p0, log), //@ [C12,C15]
+                // C14: every applied record, hit or miss, is counted exactly once in the popularity estimator
+                freq@ == Self::rd_sketch(f0, log), //@ [C14]
+        {
+            match ch.try_recv() {
+                Ok(Hit(hash, entry, timestamp)) => {
+                    proof { //@
+                        let op = ReadOp::<K, V>::Hit(hash, entry, timestamp); //@
+                        assert(self.read_op_ch.sp_queued(op)); assert(Self::rd_wf(op, p0)); //@
+                        Self::lemma_to_back_ids(deqs.probation@, entry@.ao()); //@
+                        assert(log.push(op).drop_last() =~= log); //@
+                        log = log.push(op); //@
+                    } //@
+                    freq.increment(hash);
+                    // A read recorded before a later write (or read) of the same entry
+                    // must not move its last-accessed time backwards.
+                    if entry.last_accessed().map_or(true, |ts| /*@+*/-> (b: bool) ensures b == (ts.t() < timestamp.t()) {/*@-*/ ts < timestamp /*@+*/}/*@-*/) {
+                        entry.set_last_accessed(timestamp);
+                    }
+                    if entry.is_admitted() {
+                        deqs.move_to_back_ao(&entry);
+                    }
+                }
+                Ok(Miss(hash)) => /*@+*/{ proof { let op = ReadOp::<K, V>::Miss(hash); assert(log.push(op).drop_last() =~= log); log = log.push(op); }/*@-*/ freq.increment(hash)/*@+*/ }/*@-*/,
+                Err(_) => break,
+            }
+        }
+    }
+//@@ END
+
+    // ---------------- applying ONE queued write record (C10, C04, C12, C13) ----------------
+    // `apply_writes` is under contract for `count <= 1`: one call applies at most one record, and what it does is exactly
+    // what the step function of that record's kind does with the record's OWN fields (weights in the right order, the entry,
+    // the key and hash) on the caller's lists and counters. The composition over several records needs the quiescent state
+    // re-established after each step; that state lives behind `&self` (map content, entry flags) and is not expressible here:
+    // sequences of records are exercised by the bounded runtime stand-in `rt_sync` only.
+    /// precondition of `handle_upsert` (the quiescent state), as one predicate
+    pub open spec fn upsert_pre(&self, entry: TrioArc<ValueEntry<K, V>>, new_weight: u32, d: Deques<K>, c: EvictionCounters) -> bool {
+        &&& Self::coupled(self.cache@, d.probation@) && d.regions_ok()
+        &&& c.entry_count == d.probation@.len() && c.entry_count < u64::MAX
+        &&& c.weighted_size + new_weight <= u64::MAX
+        &&& (entry@.admitted() ==> entry@.ao().is_some() && has_id(d.probation@, entry@.ao().unwrap()) && Deques::<K>::ao_in_probation(&entry@))
+    }
+    /// postcondition of `handle_upsert`, as one predicate (the same five cases)
+    pub open spec fn upsert_post(&self, kh: KeyHash<K>, entry: TrioArc<ValueEntry<K, V>>, old_weight: u32, new_weight: u32, d0: Deques<K>, c0: EvictionCounters, d: Deques<K>, c: EvictionCounters, freq: FrequencySketch) -> bool {
+        let fits = self.sp_fits(new_weight, c0.weighted_size);
+        let adm = spec_admit(new_weight as int, freq.freq(kh.hash) as int, d0.probation@, wmap(self.cache@), freq);
+        &&& d.others_same(&d0) && d.same_regions(&d0)
+        &&& (entry@.admitted() ==> {
+            &&& c.entry_count == c0.entry_count
+            &&& c.weighted_size == sat_add(sat_sub(c0.weighted_size, old_weight), new_weight)
+            &&& d.probation@ == Deques::<K>::to_back(d0.probation@, entry@.ao())
+            &&& d.write_order@ == Deques::<K>::to_back(d0.write_order@, entry@.wo())
+        })
+        &&& (!entry@.admitted() && fits ==> {
+            &&& c.entry_count == c0.entry_count + 1
+            &&& c.weighted_size == sat_add(c0.weighted_size, new_weight)
+            &&& pushed(d0.probation@, d.probation@, kid_arc(kh.key), kh.hash)
+        })
+        &&& (!entry@.admitted() && !fits && self.sp_oversize(new_weight) ==> c == c0 && d.probation@ == d0.probation@ && d.write_order@ == d0.write_order@)
+        &&& (!entry@.admitted() && !fits && !self.sp_oversize(new_weight) && adm ==> ({
+            let n = least_prefix(d0.probation@, wmap(self.cache@), new_weight as int, 0).unwrap();
+            &&& c.entry_count == c0.entry_count - n + 1
+            &&& c.weighted_size == sat_add(sat_sub_seq(c0.weighted_size, d0.probation@.take(n), wmap(self.cache@)), new_weight)
+            &&& pushed(d0.probation@.skip(n), d.probation@, kid_arc(kh.key), kh.hash)
+        }))
+        &&& (!entry@.admitted() && !fits && !self.sp_oversize(new_weight) && !adm ==> c == c0 && d.probation@ == d0.probation@ && d.write_order@ == d0.write_order@)
+    }
+    /// postcondition of `handle_remove`, as one predicate
+    pub open spec fn remove_post(entry: TrioArc<ValueEntry<K, V>>, d0: Deques<K>, c0: EvictionCounters, d: Deques<K>, c: EvictionCounters) -> bool {
+        &&& (!entry@.admitted() ==> c == c0 && d.probation@ == d0.probation@ && d.write_order@ == d0.write_order@)
+        &&& (entry@.admitted() ==> c.entry_count == c0.entry_count - 1 && c.weighted_size == sat_sub(c0.weighted_size, entry@.w()))
+        &&& (entry@.admitted() ==> d.probation@ == Deques::<K>::without(d0.probation@, entry@.ao()) && d.write_order@ == Deques::<K>::without(d0.write_order@, entry@.wo()))
+        &&& d.others_same(&d0) && d.same_regions(&d0)
+    }
+    pub open spec fn wr_pre(&self, op: WriteOp<K, V>, d: Deques<K>, c: EvictionCounters) -> bool {
+        match op {
+            WriteOp::Upsert { key_hash, value_entry, old_weight, new_weight } => self.upsert_pre(value_entry, new_weight, d, c),
+            WriteOp::Remove(kv) => Self::removable(&kv.entry@, &d, &c),
+        }
+    }
+    pub open spec fn wr_post(&self, op: WriteOp<K, V>, d0: Deques<K>, c0: EvictionCounters, d: Deques<K>, c: EvictionCounters, freq: FrequencySketch) -> bool {
+        match op {
+            WriteOp::Upsert { key_hash, value_entry, old_weight, new_weight } => self.upsert_post(key_hash, value_entry, old_weight, new_weight, d0, c0, d, c, freq),
+            WriteOp::Remove(kv) => Self::remove_post(kv.entry, d0, c0, d, c),
+        }
+    }
+
+//@@ FN file=src/sync/base_cache.rs owner=Inner name=apply_writes tags=C10,C04,C12,C13
+    fn apply_writes(&self, deqs: &mut Deques<K>, count: usize, counters: &mut EvictionCounters)
+        requires //@
+            count <= 1, //@
+            forall|op: WriteOp<K, V>| #[trigger] self.write_op_ch.sp_queued(op) ==> self.wr_pre(op, *old(deqs), *old(counters)), //@ [C08,C11]
+        ensures //@
+            // nothing was queued: nothing changes; otherwise exactly one queued record is applied, by the step function of its
+            // kind, with the record's own fields (C10: the weights the record carries, old before new), against the value the
+            // popularity estimator holds while this call has it locked
+            (*final(deqs) == *old(deqs) && *final(counters) == *old(counters)) //@ [C10,C04,C12,C13,C03]
+            || exists|op: WriteOp<K, V>, sk: FrequencySketch| #[trigger] self.write_op_ch.sp_queued(op) && #[trigger] self.wr_post(op, *old(deqs), *old(counters), *final(deqs), *final(counters), sk), //@ [C10,C04,C12,C13,C03]
+    {
+        use WriteOp::*;
+        let freq = self.frequency_sketch.read().expect("lock poisoned");
+        let ch = &self.write_op_ch;
+        let ghost d0 = *deqs; let ghost c0 = *counters; //@
+
+        for _ in /*@+*/it:/*@-*/ 0..count
+            invariant //@
+                *ch == self.write_op_ch, count <= 1, //@
+                it.index@ == 0 ==> *deqs == d0 && *counters == c0, //@
+                forall|op: WriteOp<K, V>| #[trigger] self.write_op_ch.sp_queued(op) ==> self.wr_pre(op, d0, c0), //@
+                (*deqs == d0 && *counters == c0) //@ [C10,C04,C12,C13,C03]
+                || exists|op: WriteOp<K, V>, sk: FrequencySketch| #[trigger] self.write_op_ch.sp_queued(op) && #[trigger] self.wr_post(op, d0, c0, *deqs, *counters, sk), //@ [C10,C04,C12,C13,C03]
+        {
+            match ch.try_recv() {
+                Ok(Upsert {
+                    key_hash: kh,
+                    value_entry: entry,
+                    old_weight,
+                    new_weight,
+                }) => /*@+*/{ proof { let op = WriteOp::<K, V>::Upsert { key_hash: kh, value_entry: entry, old_weight, new_weight }; assert(self.write_op_ch.sp_queued(op)); assert(self.wr_pre(op, d0, c0)); }/*@-*/ self.handle_upsert(kh, entry, old_weight, new_weight, deqs, &freq, counters)/*@+*/; proof { let op = WriteOp::<K, V>::Upsert { key_hash: kh, value_entry: entry, old_weight, new_weight }; assert(self.wr_post(op, d0, c0, *deqs, *counters, freq@)); } }/*@-*/,
+                Ok(Remove(KvEntry { key: _key, entry })) => {
+                    proof { let op = WriteOp::<K, V>::Remove(KvEntry { key: _key, entry }); assert(self.write_op_ch.sp_queued(op)); assert(self.wr_pre(op, d0, c0)); } //@
+                    Self::handle_remove(deqs, entry, counters)/*@+*/; proof { let op = WriteOp::<K, V>::Remove(KvEntry { key: _key, entry }); assert(self.wr_post(op, d0, c0, *deqs, *counters, freq@)); }/*@-*/
+                }
+                Err(_) => break,
+            };
+        }
+    }
+//@@ END
+
+    // ---------------- switching the popularity estimator on (C13, C14) ----------------
+//@@ FN file=src/sync/base_cache.rs owner=Inner name=should_enable_frequency_sketch tags=C13,C14
+    fn should_enable_frequency_sketch(&self, counters: &EvictionCounters) -> /*@+*/(r:/*@-*/ bool/*@+*/)/*@-*/
+        // once, when a bounded cache is half full (for the flag value this call reads)
+        ensures r == (!self.frequency_sketch_enabled.sp_val() && self.max_capacity.is_some() && counters.weighted_size >= self.max_capacity.unwrap() / 2) //@ [C13,C14]
+    {
+        if self.frequency_sketch_enabled.load(Ordering::Acquire) {
+            false
+        } else if let Some(max_cap) = self.max_capacity {
+            counters.weighted_size >= max_cap / 2
+        } else {
+            false
+        }
+    }
+//@@ END
+
+//@@ FN file=src/sync/base_cache.rs owner=Inner name=enable_frequency_sketch tags=C14,C08
+    fn enable_frequency_sketch(&self, counters: &EvictionCounters)
+    {
+        if let Some(max_cap) = self.max_capacity {
+            let c = counters;
+            let cap = if self.weigher.is_none() {
+                max_cap
+            } else {
+                (c.entry_count as f64 * (c.weighted_size as f64 / max_cap as f64)) as u64
+            };
+            self.do_enable_frequency_sketch(cap);
+        }
+    }
+//@@ END
+
+//@@ FN file=src/sync/base_cache.rs owner=Inner name=do_enable_frequency_sketch tags=C14,C08
+    fn do_enable_frequency_sketch(&self, cache_capacity: u64)
+    {
+        let skt_capacity = common::sketch_capacity(cache_capacity);
+        self.frequency_sketch
+            .write()
+            .expect("lock poisoned")
+            .ensure_capacity(skt_capacity);
+        self.frequency_sketch_enabled.store(true, Ordering::Release);
+    }
+//@@ END
 }
 } // mod code
 
 pub mod canary {
 use vstd::prelude::*;
 use super::env::*;
-broadcast use {axiom_node_ref};
+broadcast use {axiom_node_ref, axiom_ptr_reads, axiom_kid_arc, axiom_f64_mul_ok, axiom_f64_div_ok};
 pub proof fn verif_canary_sync_maint() ensures false {}
 }
 }
